@@ -13,6 +13,7 @@ def generate():
         "ant-evm/src/data_payments.rs", f"{DST}/data_payments.rs",
         {"libp2p": "crate::shim::libp2p", "std": "crate::shim::std"},
         subs=[("#[cfg(target_arch = \"wasm32\")]\npub use wasmtimer::std::SystemTime;", "", 1)],
+        append='#[path = "../h_quote.rs"]\npub mod harness;\n',
         require=["fn verify_for", "fn check_is_signed_by_claimed_peer", "fn has_expired", "fn bytes_for_signing", "fn historical_verify"]))
     # ant-protocol scratchpad with a symbolic counter (explicit, checked type substitutions)
     meta.append(transplant_file(
